@@ -116,7 +116,8 @@ def finish(prop, tier, a, meta, results, nshards, t0, tmpd):
         fail_counts.update(r["fail_counts"])
         for k, v in r["hist"].items():
             hist[k].update(v)
-        notes.update(r["notes"])
+        for nk, nv in r["notes"].items():  # counters add up; "max_*" notes are maxima
+            notes[nk] = max(notes.get(nk, 0), nv) if nk.startswith("max_") else notes.get(nk, 0) + nv
         distinct.update(r["distinct"])
         fails.extend(r["fails"])
         cases += r["cases"]
